@@ -17,6 +17,7 @@ import c05, c15
 
 PROP = "C07"
 NAMES = [b"a", b"b", b"c", b"d"]
+CONFLICT_PATHS = [b"a", b"a/b", b"a/b/c", b"a/d", b"e"]
 
 
 # ------------------------------------------------------------------ seeds for the fuzzer
@@ -119,7 +120,8 @@ def link_graph_cases():
 
 @st.composite
 def cli_cases(draw, tier="quick", only=None):
-    what = only or draw(st.sampled_from(["trunc", "damage", "damage", "graph_tar", "graph_pack", "text_pack", "text_sort", "text_xattr", "paxrec", "paxrec"]))
+    what = only or draw(st.sampled_from(["trunc", "damage", "damage", "graph_tar", "graph_pack", "text_pack", "text_sort", "text_xattr", "paxrec", "paxrec",
+                                          "conflict_tar", "conflict_pack"]))
     case = dict(what=what)
     if what == "paxrec":
         # one member whose PAX header is a generated sequence of records the reader knows (any order, repeats, odd values), or whose
@@ -163,6 +165,12 @@ def cli_cases(draw, tier="quick", only=None):
                                                      st.integers(1, 64)), min_size=1, max_size=4))
         else:
             case["cut"] = draw(st.one_of(st.floats(0, 1), st.floats(0, 1), st.just(1.0)))      # 1.0: the complete archive
+    elif what.startswith("conflict"):
+        # entries over nested names in any order: a name may be asked for as a non-directory although the input also puts entries
+        # below it (before or after).  No tree has both, so such an input must be refused; without a conflict whatever is accepted
+        # must have every entry with its type (a directory that first came into being as a path component included).
+        paths = draw(st.lists(st.sampled_from(CONFLICT_PATHS), min_size=2, max_size=4, unique=True))
+        case["entries"] = [(p, draw(st.sampled_from(["dir", "dir", "file", "slink", "fifo", "chr"]))) for p in paths]
     elif what.startswith("graph"):
         nn = draw(st.sampled_from([2, 3, 3, 4]))
         kinds = ["file", "dir", "absent"] + [("link", t) for t in range(nn)]
@@ -418,6 +426,55 @@ def check_case(case, opts):
                         raise Violation("%s: exit status 0, but the well-formed member %r that follows in the archive is missing from the image (or has other contents)"
                                         % (desc, nm.decode()), None, sig="later-member-lost")
             return CaseInfo(True, [what, "type_" + tf.decode(), "rc_%d" % r.rc] + (["sparse_records"] if any(k.startswith(b"GNU.sparse") for k, _ in case["recs"]) else []))
+        if what.startswith("conflict"):
+            ents = [(bytes(p) if not isinstance(p, bytes) else p, t) for p, t in case["entries"]]
+            ents = [(p.encode("latin-1") if isinstance(p, str) else p, t) for p, t in ents]
+            tmap = dict(ents)
+            conflict = [p for p, t in ents if t != "dir" and any(q.startswith(p + b"/") for q, _ in ents)]
+            if what == "conflict_tar":
+                tents = []
+                for p, t in ents:
+                    e = dict(name=p + (b"/" if t == "dir" else b""), type=t, mode=0o755 if t == "dir" else 0o644, uid=1, gid=2, mtime=3, xattrs={}, enc=dict(fmt="ustar"))
+                    if t == "file":
+                        e["data"] = b"content of " + p
+                    elif t == "slink":
+                        e["linkname"] = b"target-of-" + p.replace(b"/", b"_")
+                    elif t == "chr":
+                        e["major"], e["minor"] = 1, 2
+                    tents.append(e)
+                try:
+                    data = tarimg.encode_archive(tents)
+                except (OverflowError, KeyError) as e:
+                    raise Inconclusive("generator: %r" % e)
+                r = vcommon.run([t2s, "-q", "-c", "gzip", out], stdin=data, timeout=30)
+                desc = "tar2sqfs on entries %r" % (ents,)
+            else:
+                os.mkdir(os.path.join(sc, "in"))
+                with open(os.path.join(sc, "in", "x"), "wb") as fh:
+                    fh.write(b"x")
+                lines = []
+                for p, t in ents:
+                    n = b"/" + p
+                    lines.append({"dir": b"dir " + n + b" 0755 1 2", "file": b"file " + n + b" 0644 1 2 in/x", "slink": b"slink " + n + b" 0777 1 2 target-of-" + p.replace(b"/", b"_"),
+                                  "fifo": b"pipe " + n + b" 0644 1 2", "chr": b"nod " + n + b" 0644 1 2 c 1 2"}[t])
+                lf = os.path.join(sc, "list.txt")
+                with open(lf, "wb") as fh:
+                    fh.write(b"\n".join(lines) + b"\n")
+                r = vcommon.run([gen, "-q", "-c", "gzip", "-F", lf, "-D", sc, out], timeout=30)
+                desc = "gensquashfs on entries %r" % (ents,)
+            img = judge(r, out, desc)
+            if conflict and r.rc == 0:
+                raise Violation("%s: accepted although %r is asked for as a %s and as the parent of other entries" % (desc, conflict[0], tmap[conflict[0]]), None, sig="conflict-accepted")
+            if img is not None:
+                t = img.tree()
+                for p, ty in ents:
+                    if p not in t or t[p]["type"] != ty:
+                        raise Violation("%s: accepted, but the image has %s where the input asks for a %s named %r" % (
+                            desc, ("a " + t[p]["type"]) if p in t else "nothing", ty, p), None, sig="entry-lost")
+                    if ty == "slink" and t[p].get("target") != b"target-of-" + p.replace(b"/", b"_"):
+                        raise Violation("%s: accepted, but the symlink %r points to %r" % (desc, p, t[p].get("target")), None, sig="entry-lost")
+            promoted = any(ty == "dir" and any(q.startswith(p + b"/") and ents.index((q, tq)) < ents.index((p, ty)) for q, tq in ents) for p, ty in ents)
+            return CaseInfo(bool(conflict) or promoted, [what, "conflicting" if conflict else ("implicit_then_explicit_dir" if promoted else "plain"), "rc_%d" % r.rc])
         if what.startswith("graph"):
             g = case["graph"]
             nn = len(g)
